@@ -19,6 +19,7 @@ ASSUMPTIONS = ["reference PDA acceptance = pop-summary fixpoint (vlib/ref_pda.py
                "words up to length 3 over the input symbols plus one foreign symbol",
                "cfg.to_pda() prints symbol values with str(): only string-valued grammar symbols are in the domain"]
 BUDGET = {"quick": 600, "thorough": 5000}
+FUZZ = {"procs": 4, "runs": 6000}      # atheris supplement of the thorough tier (vlib/fuzz.py)
 WATCHDOG = 60
 
 
